@@ -14,6 +14,9 @@ package bufmodule
 // supplied by two modules, an import nobody supplies (other than a well-known type) and an import cycle are
 // errors (DuplicateProtoPathError / ImportNotExistError / ModuleCycleError); among same-named candidates a
 // target beats a non-target, then local beats remote (first added wins), then the newest remote commit.
+//
+// The module set builder (Add* / Build / records / de-duplication), newModuleSet, WithTargetOpaqueIDs and the
+// target-file / file-type filters of module_read_bucket.go: see the section "a2" further down.
 
 import (
 	"context"
@@ -136,6 +139,7 @@ func (w *c10Workspace) build(ctx context.Context) (ModuleSet, error) {
 type c10Failure struct {
 	tag  string
 	text string
+	key  string // the input the failure is about (one line is printed per input); "" = derived from text
 }
 
 type c10Run struct {
@@ -144,7 +148,12 @@ type c10Run struct {
 }
 
 func (r *c10Run) fail(tag string, format string, a ...any) {
-	r.failures = append(r.failures, c10Failure{tag, fmt.Sprintf(format, a...)})
+	r.failures = append(r.failures, c10Failure{tag: tag, text: fmt.Sprintf(format, a...)})
+}
+
+// failAt: a deviation for the input described by what (the message follows the description)
+func (r *c10Run) failAt(tag string, what string, format string, a ...any) {
+	r.failures = append(r.failures, c10Failure{tag: tag, text: what + fmt.Sprintf(format, a...), key: what})
 }
 
 func (w *c10Workspace) providers(path string) []int {
@@ -879,6 +888,991 @@ func (r *c10Run) familyTracker(ctx context.Context) {
 	}
 }
 
+// ==== a2: what the module set builder records and builds, the module set, the target-file filters
+//
+// Inputs: (1) every sequence of one to three Add* calls out of 28 kinds (local / remote, target / non-target,
+// unnamed / named x / named y, remote commits of different age, no paths / target+exclude paths / only target
+// paths / only exclude paths / a proto-file target), the remote modules served by an in-memory ModuleDataProvider;
+// followed by the direct de-duplication, Build, a second Build, Add* after Build and WithTargetOpaqueIDs for every
+// non-empty subset of the built modules. (2) a module with the files a/a.proto a/b/b.proto c/c.proto LICENSE
+// README.md buf.md x target paths subsets of {a, a/b, c, a/a.proto} x exclude paths subsets of {a/b, c} x
+// target / non-target, looked at through Walk / Stat / GetFile of the module, of ModuleReadBucketWithOnlyFileTypes
+// (all 8 type sets) and of ModuleReadBucketWithOnlyTargetFiles. (3) newModuleSet on hand-built module lists whose
+// OpaqueIDs / names / bucket IDs / descriptions collide or not.
+//
+// Oracle (doc comments of ModuleSetBuilder, LocalModuleWithTargetPaths, RemoteModuleWithTargetPaths, ModuleSet,
+// ModuleReadBucketWithOnly*): Build works once; Add* after Build is an error; paths on a non-target module are an
+// error reported by Build; a non-empty builder needs a target; one module per OpaqueID (target over non-target,
+// local over remote in the order added, newest remote commit), sorted by OpaqueID, with IsTarget / IsLocal as
+// added; a file is a target file iff its module is a target and it lies under a target path (any file when there
+// are none) and under no exclude path; a filtered bucket shows only the listed file types, a targeted bucket only
+// target files (others are not-exist); WithTargetOpaqueIDs makes exactly the named modules targets.
+
+var c10aFiles = []string{"a/a.proto", "a/b/b.proto", "c/c.proto", "LICENSE", "README.md", "buf.md"}
+
+// the files of the module: buf.md is the documentation file, README.md is discarded (GetDocFile doc comment)
+var c10aModuleFiles = []string{"LICENSE", "a/a.proto", "a/b/b.proto", "buf.md", "c/c.proto"}
+
+var c10aPackage = map[string]string{"a/a.proto": "pkg.a", "a/b/b.proto": "pkg.a", "c/c.proto": "pkg.c"}
+
+func c10aNewBucket() storage.ReadBucket {
+	data := map[string][]byte{}
+	for _, p := range c10aFiles {
+		if pkg, ok := c10aPackage[p]; ok {
+			data[p] = []byte("syntax = \"proto3\";\npackage " + pkg + ";\n")
+		} else {
+			data[p] = []byte("text of " + p + "\n")
+		}
+	}
+	bucket, err := storagemem.NewReadBucket(data)
+	if err != nil {
+		panic(err)
+	}
+	return bucket
+}
+
+type c10aTargeting struct {
+	tp, ex      []string
+	protoTarget string
+	includePkg  bool
+}
+
+func (tg c10aTargeting) String() string {
+	if tg.protoTarget != "" {
+		return fmt.Sprintf("proto-file target %s (package files=%v)", tg.protoTarget, tg.includePkg)
+	}
+	if len(tg.tp)+len(tg.ex) == 0 {
+		return "no paths"
+	}
+	return fmt.Sprintf("target paths %v exclude paths %v", tg.tp, tg.ex)
+}
+
+func (tg c10aTargeting) empty() bool {
+	return len(tg.tp) == 0 && len(tg.ex) == 0 && tg.protoTarget == ""
+}
+
+func c10aUnder(dir string, path string) bool {
+	return path == dir || strings.HasPrefix(path, dir+"/")
+}
+
+func c10aWantType(path string) FileType {
+	switch {
+	case strings.HasSuffix(path, ".proto"):
+		return FileTypeProto
+	case path == "LICENSE":
+		return FileTypeLicense
+	default:
+		return FileTypeDoc
+	}
+}
+
+func c10aWantTarget(isTarget bool, tg c10aTargeting, path string) bool {
+	if !isTarget {
+		return false
+	}
+	if tg.protoTarget != "" {
+		if !strings.HasSuffix(path, ".proto") {
+			return false
+		}
+		if path == tg.protoTarget {
+			return true
+		}
+		return tg.includePkg && c10aPackage[tg.protoTarget] != "" && c10aPackage[tg.protoTarget] == c10aPackage[path]
+	}
+	in := len(tg.tp) == 0
+	for _, t := range tg.tp {
+		if c10aUnder(t, path) {
+			in = true
+		}
+	}
+	for _, e := range tg.ex {
+		if c10aUnder(e, path) {
+			in = false
+		}
+	}
+	return in
+}
+
+func c10aEntry(path string, fileType FileType, target bool) string {
+	s := path + ":" + fileType.String()
+	if target {
+		s += ":TARGET"
+	}
+	return s
+}
+
+// the expected listing: all files of the module (onlyTargets: the target files), of the given types
+func c10aWantListing(isTarget bool, tg c10aTargeting, onlyTargets bool, types map[FileType]bool) string {
+	var out []string
+	for _, p := range c10aModuleFiles {
+		target := c10aWantTarget(isTarget, tg, p)
+		if onlyTargets && !target {
+			continue
+		}
+		if types != nil && !types[c10aWantType(p)] {
+			continue
+		}
+		out = append(out, c10aEntry(p, c10aWantType(p), target))
+	}
+	return "[" + strings.Join(out, " ") + "]"
+}
+
+func c10aListing(ctx context.Context, bucket ModuleReadBucket, owner string, options ...WalkFileInfosOption) string {
+	var out []string
+	err := bucket.WalkFileInfos(ctx, func(fileInfo FileInfo) error {
+		entry := c10aEntry(fileInfo.Path(), fileInfo.FileType(), fileInfo.IsTargetFile())
+		if fileInfo.Module() == nil || fileInfo.Module().OpaqueID() != owner {
+			entry += ":WRONG-MODULE"
+		}
+		out = append(out, entry)
+		return nil
+	}, options...)
+	sort.Strings(out)
+	s := "[" + strings.Join(out, " ") + "]"
+	if err != nil {
+		s += " err=" + err.Error()
+	}
+	return s
+}
+
+const (
+	c10aTagNonTargetModule = "non-target-module-file-never-target target-flag-is-the-decision as-given"
+	c10aTagDecision        = "target-flag-is-the-decision target-paths-normalized target-path-set exclude-path-set targeting-from-options remote-path-filters file-target-normalized own-read-bucket-same-targeting same-targeting target-paths-as-given exclude-paths-as-given file-target-as-given paths-as-given target-as-given as-given proto license success-is-classified file-of-this-module"
+	c10aTagTargetedStat    = "only-target-files-visible non-target-file-is-absent target-file-found delegate-error-forwarded"
+	c10aTagFilteredWalk    = "only-listed-types-handed-on other-types-skipped listed-type-handed-on exactly-the-listed-types"
+	c10aTagFilteredStat    = "only-listed-types-visible other-type-is-absent listed-type-found exactly-the-listed-types"
+)
+
+// the files of one module as seen through the module, the file-type filter and the target-file filter
+func (r *c10Run) c10aCheckFiles(ctx context.Context, what string, module Module, isTarget bool, tg c10aTargeting, deep bool) {
+	owner := module.OpaqueID()
+	flagTag := c10aTagDecision
+	if !isTarget {
+		flagTag = c10aTagNonTargetModule
+	}
+	if got, want := c10aListing(ctx, module, owner), c10aWantListing(isTarget, tg, false, nil); got != want {
+		r.failAt(flagTag, what, ": WalkFileInfos = %s; want %s", got, want)
+	}
+	if !deep {
+		return
+	}
+	if got, want := c10aListing(ctx, module, owner, WalkFileInfosWithOnlyTargetFiles()), c10aWantListing(isTarget, tg, true, nil); got != want {
+		r.failAt(flagTag, what, ": WalkFileInfos(only target files) = %s; want %s", got, want)
+	}
+	inModule := map[string]bool{}
+	for _, p := range c10aModuleFiles {
+		inModule[p] = true
+	}
+	paths := append(append([]string{}, c10aFiles...), "a/nobody.proto")
+	for _, p := range paths {
+		fileInfo, err := module.StatFileInfo(ctx, p)
+		if !inModule[p] {
+			if err == nil || !errors.Is(err, fs.ErrNotExist) {
+				r.failAt("unclassified-rejected", what, ": StatFileInfo(%q): err=%v; want not-exist (not a file of the module)", p, err)
+			}
+			continue
+		}
+		if err != nil || fileInfo == nil {
+			r.failAt(flagTag, what, ": StatFileInfo(%q): err=%v; want the file", p, err)
+			continue
+		}
+		if got, want := c10aEntry(fileInfo.Path(), fileInfo.FileType(), fileInfo.IsTargetFile()), c10aEntry(p, c10aWantType(p), c10aWantTarget(isTarget, tg, p)); got != want || fileInfo.Module() == nil || fileInfo.Module().OpaqueID() != owner {
+			gotOwner := "<nil>"
+			if fileInfo.Module() != nil {
+				gotOwner = fileInfo.Module().OpaqueID()
+			}
+			r.failAt(flagTag, what, ": StatFileInfo(%q) = %s of module %s; want %s of module %s", p, got, gotOwner, want, owner)
+		}
+	}
+	// only target files
+	targeted := ModuleReadBucketWithOnlyTargetFiles(module)
+	if got, want := c10aListing(ctx, targeted, owner), c10aWantListing(isTarget, tg, true, nil); got != want {
+		r.failAt(flagTag+" "+c10aTagTargetedStat, what, ": ModuleReadBucketWithOnlyTargetFiles: WalkFileInfos = %s; want %s", got, want)
+	}
+	for _, p := range paths {
+		wantVisible := inModule[p] && c10aWantTarget(isTarget, tg, p)
+		fileInfo, err := targeted.StatFileInfo(ctx, p)
+		file, fileErr := targeted.GetFile(ctx, p)
+		if file != nil {
+			_ = file.Close()
+		}
+		if wantVisible {
+			if err != nil || fileInfo == nil || !fileInfo.IsTargetFile() || fileInfo.Path() != p || fileErr != nil {
+				r.failAt(c10aTagTargetedStat+" "+flagTag, what, ": ModuleReadBucketWithOnlyTargetFiles: StatFileInfo(%q) = %v err=%v, GetFile err=%v; want the target file", p, fileInfo, err, fileErr)
+			}
+			continue
+		}
+		var pathError *fs.PathError
+		if err == nil || fileInfo != nil || !errors.Is(err, fs.ErrNotExist) || (inModule[p] && (!errors.As(err, &pathError) || pathError.Path != p)) {
+			got := "<nil>"
+			if fileInfo != nil {
+				got = c10aEntry(fileInfo.Path(), fileInfo.FileType(), fileInfo.IsTargetFile())
+			}
+			r.failAt(c10aTagTargetedStat+" "+flagTag, what, ": ModuleReadBucketWithOnlyTargetFiles: StatFileInfo(%q) = %s err=%v; want not-exist (%q is not a target file)", p, got, err, p)
+		}
+		if fileErr == nil || !errors.Is(fileErr, fs.ErrNotExist) {
+			r.failAt(c10aTagTargetedStat, what, ": ModuleReadBucketWithOnlyTargetFiles: GetFile(%q): err=%v; want not-exist (%q is not a target file)", p, fileErr, p)
+		}
+	}
+	// only some file types
+	allTypes := []FileType{FileTypeProto, FileTypeDoc, FileTypeLicense}
+	for mask := 0; mask < 8; mask++ {
+		var types []FileType
+		typeSet := map[FileType]bool{}
+		for i, t := range allTypes {
+			if mask&(1<<i) != 0 {
+				types = append(types, t)
+				typeSet[t] = true
+			}
+		}
+		filtered := ModuleReadBucketWithOnlyFileTypes(module, types...)
+		if got, want := c10aListing(ctx, filtered, owner), c10aWantListing(isTarget, tg, false, typeSet); got != want {
+			r.failAt(c10aTagFilteredWalk, what, ": ModuleReadBucketWithOnlyFileTypes(%v): WalkFileInfos = %s; want %s", types, got, want)
+		}
+		if got, want := c10aListing(ctx, filtered, owner, WalkFileInfosWithOnlyTargetFiles()), c10aWantListing(isTarget, tg, true, typeSet); got != want {
+			r.failAt(c10aTagFilteredWalk+" "+flagTag, what, ": ModuleReadBucketWithOnlyFileTypes(%v): WalkFileInfos(only target files) = %s; want %s", types, got, want)
+		}
+		for _, p := range paths {
+			wantVisible := inModule[p] && typeSet[c10aWantType(p)]
+			fileInfo, err := filtered.StatFileInfo(ctx, p)
+			if wantVisible {
+				if err != nil || fileInfo == nil || fileInfo.Path() != p || fileInfo.FileType() != c10aWantType(p) {
+					r.failAt(c10aTagFilteredStat, what, ": ModuleReadBucketWithOnlyFileTypes(%v): StatFileInfo(%q) = %v err=%v; want the file", types, p, fileInfo, err)
+				}
+				continue
+			}
+			if err == nil || fileInfo != nil || !errors.Is(err, fs.ErrNotExist) {
+				r.failAt(c10aTagFilteredStat, what, ": ModuleReadBucketWithOnlyFileTypes(%v): StatFileInfo(%q) = %v err=%v; want not-exist", types, p, fileInfo, err)
+			}
+		}
+	}
+}
+
+func c10aModuleFlags(module Module) string {
+	if module == nil {
+		return "<nil>"
+	}
+	return fmt.Sprintf("{OpaqueID=%s BucketID=%q IsTarget=%v IsLocal=%v}", module.OpaqueID(), module.BucketID(), module.IsTarget(), module.IsLocal())
+}
+
+func c10aSubset(choices []string, mask int) []string {
+	var out []string
+	for i, c := range choices {
+		if mask&(1<<i) != 0 {
+			out = append(out, c)
+		}
+	}
+	return out
+}
+
+func c10aNilObjectData() (ObjectData, error) { return nil, nil }
+
+func (r *c10Run) familyTargetFiles(ctx context.Context) {
+	otherBucket, err := storagemem.NewReadBucket(map[string][]byte{"z/z.proto": []byte("syntax = \"proto3\";\npackage z;\n")})
+	if err != nil {
+		return
+	}
+	var targetings []c10aTargeting
+	for tpMask := 0; tpMask < 16; tpMask++ {
+		for exMask := 0; exMask < 4; exMask++ {
+			targetings = append(targetings, c10aTargeting{tp: c10aSubset([]string{"a", "a/b", "c", "a/a.proto"}, tpMask), ex: c10aSubset([]string{"a/b", "c"}, exMask)})
+		}
+	}
+	for _, p := range []string{"a/a.proto", "a/b/b.proto", "c/c.proto", "d/none.proto"} {
+		targetings = append(targetings, c10aTargeting{protoTarget: p}, c10aTargeting{protoTarget: p, includePkg: true})
+	}
+	for _, tg := range targetings {
+		for _, isTarget := range []bool{true, false} {
+			r.checked++
+			what := fmt.Sprintf("module bucket-m {%s} added with AddLocalModule(isTarget=%v, %s) next to the target module bucket-other", strings.Join(c10aFiles, " "), isTarget, tg)
+			builder := NewModuleSetBuilder(ctx, c10Logger, NopModuleDataProvider, NopCommitProvider)
+			var options []LocalModuleOption
+			if len(tg.tp)+len(tg.ex) > 0 {
+				options = append(options, LocalModuleWithTargetPaths(tg.tp, tg.ex))
+			}
+			if tg.protoTarget != "" {
+				options = append(options, LocalModuleWithProtoFileTargetPath(tg.protoTarget, tg.includePkg))
+			}
+			builder.AddLocalModule(c10aNewBucket(), "bucket-m", isTarget, options...)
+			builder.AddLocalModule(otherBucket, "bucket-other", true)
+			mset, err := builder.Build()
+			if !isTarget && !tg.empty() {
+				if err == nil {
+					r.failAt("non-target-has-no-targeting one-record-or-one-error add-errors-reported", what, ": Build() succeeds; paths for a non-target module are documented as an error during Build()")
+				}
+				// the unexported constructor accepts them: still no file of a non-target module is a target file
+				bucket := c10aNewBucket()
+				module, err := newModule(ctx, getSyncOnceValuesGetBucketWithStorageMatcherApplied(ctx, func() (storage.ReadBucket, error) { return bucket, nil }),
+					"bucket-m", "", nil, uuid.Nil, false, true, c10aNilObjectData, c10aNilObjectData, func() ([]ModuleKey, error) { return nil, nil },
+					tg.tp, tg.ex, tg.protoTarget, tg.includePkg)
+				if err != nil {
+					r.fail("otherwise-accepted", "newModule(bucket-m, isTarget=false, %s): error %v", tg, err)
+					continue
+				}
+				if module.IsTarget() || !module.IsLocal() || module.BucketID() != "bucket-m" {
+					r.fail("flags-as-given identity-as-given", "newModule(bucket-m, isTarget=false, isLocal=true, %s): IsTarget=%v IsLocal=%v BucketID=%q", tg, module.IsTarget(), module.IsLocal(), module.BucketID())
+				}
+				r.c10aCheckFiles(ctx, fmt.Sprintf("module bucket-m {%s} made with newModule(isTarget=false, %s)", strings.Join(c10aFiles, " "), tg), module, false, tg, true)
+				continue
+			}
+			if err != nil {
+				r.failAt("otherwise-accepted one-record-or-one-error", what, ": Build() fails: %v", err)
+				continue
+			}
+			module := mset.GetModuleForBucketID("bucket-m")
+			if module == nil || module.IsTarget() != isTarget || !module.IsLocal() {
+				r.failAt("flags-as-given module-flags record-as-given records-module", what, ": built module %s: want IsTarget=%v IsLocal=true", c10aModuleFlags(module), isTarget)
+				continue
+			}
+			r.c10aCheckFiles(ctx, what, module, isTarget, tg, true)
+			// WithTargetOpaqueIDs: the module keeps its paths, only the flag changes
+			for _, ids := range [][]string{{"bucket-other"}, {"bucket-m"}, {"bucket-m", "bucket-other"}} {
+				r.checked++
+				want := ids[0] == "bucket-m"
+				what2 := fmt.Sprintf("%s, then WithTargetOpaqueIDs(%s)", what, strings.Join(ids, ", "))
+				mset2, err := mset.WithTargetOpaqueIDs(ids...)
+				if err != nil || mset2 == nil {
+					r.failAt("copy-with-flag same-modules-retargeted", what2, ": error %v", err)
+					continue
+				}
+				module2 := mset2.GetModuleForOpaqueID("bucket-m")
+				if module2 == nil || module2.IsTarget() != want || module2.BucketID() != "bucket-m" || !module2.IsLocal() {
+					r.failAt("copy-with-flag same-modules-retargeted identity-kept inv-step", what2, ": module bucket-m is now %s; want IsTarget=%v", c10aModuleFlags(module2), want)
+					continue
+				}
+				if module.IsTarget() != isTarget {
+					r.failAt("original-untouched", what2, ": the module of the original set changed its IsTarget to %v", module.IsTarget())
+				}
+				r.c10aCheckFiles(ctx, what2, module2, want, tg, false)
+			}
+		}
+	}
+}
+
+// ---- the builder
+
+type c10aAdd struct {
+	local  bool
+	target bool
+	name   string // "" = an unnamed local module (OpaqueID = bucket ID)
+	commit int    // remote: index into c10aCommitIDs
+	tg     c10aTargeting
+}
+
+var c10aCommitIDs = []uuid.UUID{
+	uuid.MustParse("00000000-0000-4000-8000-0000000000a1"), // x, old
+	uuid.MustParse("00000000-0000-4000-8000-0000000000a2"), // x, 48h newer
+	uuid.MustParse("00000000-0000-4000-8000-0000000000a3"), // y
+}
+var c10aCommitAge = []int{0, 48, 24}
+
+const c10aNameX = "buf.build/acme/x"
+const c10aNameY = "buf.build/acme/y"
+
+func (a c10aAdd) describe() string {
+	var s string
+	if a.local {
+		s = "AddLocalModule(" + map[bool]string{true: "unnamed", false: a.name}[a.name == ""]
+	} else {
+		s = fmt.Sprintf("AddRemoteModule(%s@commit%d(+%dh)", a.name, a.commit+1, c10aCommitAge[a.commit])
+	}
+	s += map[bool]string{true: ", target", false: ", non-target"}[a.target]
+	if !a.tg.empty() {
+		s += ", " + a.tg.String()
+	}
+	return s + ")"
+}
+
+func c10aDescribeSeq(seq []c10aAdd) string {
+	var parts []string
+	for _, a := range seq {
+		parts = append(parts, a.describe())
+	}
+	return "builder calls [" + strings.Join(parts, "; ") + "]"
+}
+
+func (a c10aAdd) id(pos int) string {
+	if a.name != "" {
+		return a.name
+	}
+	return fmt.Sprintf("bucket-%d", pos)
+}
+
+type c10aDataProvider struct {
+	ctx       context.Context
+	bucket    storage.ReadBucket
+	requested []uuid.UUID
+}
+
+func (p *c10aDataProvider) GetModuleDatasForModuleKeys(ctx context.Context, moduleKeys []ModuleKey) ([]ModuleData, error) {
+	out := make([]ModuleData, len(moduleKeys))
+	for i, key := range moduleKeys {
+		p.requested = append(p.requested, key.CommitID())
+		out[i] = NewModuleData(ctx, key, func() (storage.ReadBucket, error) { return p.bucket, nil }, func() ([]ModuleKey, error) { return nil, nil }, c10aNilObjectData, c10aNilObjectData)
+	}
+	return out, nil
+}
+
+// the documented choice among the candidates (positions in seq) with one OpaqueID: the acceptable positions
+func c10aChoose(seq []c10aAdd, positions []int) []int {
+	var pool []int
+	for _, p := range positions {
+		if seq[p].target {
+			pool = append(pool, p)
+		}
+	}
+	if len(pool) == 0 {
+		pool = positions
+	}
+	for _, p := range pool {
+		if seq[p].local {
+			return []int{p}
+		}
+	}
+	newest := -1
+	for _, p := range pool {
+		if age := c10aCommitAge[seq[p].commit]; age > newest {
+			newest = age
+		}
+	}
+	var out []int
+	for _, p := range pool {
+		if c10aCommitAge[seq[p].commit] == newest {
+			out = append(out, p)
+		}
+	}
+	return out
+}
+
+func c10aKinds() []c10aAdd {
+	both := c10aTargeting{tp: []string{"a"}, ex: []string{"a/b"}}
+	var kinds []c10aAdd
+	for _, target := range []bool{true, false} {
+		for _, name := range []string{"", c10aNameX, c10aNameY} {
+			kinds = append(kinds, c10aAdd{local: true, target: target, name: name}, c10aAdd{local: true, target: target, name: name, tg: both})
+		}
+		kinds = append(kinds, c10aAdd{local: true, target: target, name: c10aNameX, tg: c10aTargeting{protoTarget: "a/a.proto"}})
+		for _, remote := range []struct {
+			name   string
+			commit int
+		}{{c10aNameX, 0}, {c10aNameX, 1}, {c10aNameY, 2}} {
+			kinds = append(kinds, c10aAdd{target: target, name: remote.name, commit: remote.commit}, c10aAdd{target: target, name: remote.name, commit: remote.commit, tg: both})
+		}
+	}
+	kinds = append(kinds, c10aAdd{local: true, target: true, tg: c10aTargeting{tp: []string{"c"}}})
+	kinds = append(kinds, c10aAdd{target: true, name: c10aNameY, commit: 2, tg: c10aTargeting{ex: []string{"a"}}})
+	return kinds
+}
+
+type c10aEnv struct {
+	bucket         storage.ReadBucket
+	digest         Digest
+	names          map[string]bufparse.FullName
+	commitProvider *c10CommitProvider
+}
+
+func c10aNewEnv(ctx context.Context) (*c10aEnv, error) {
+	env := &c10aEnv{bucket: c10aNewBucket(), names: map[string]bufparse.FullName{}}
+	filtered, err := getSyncOnceValuesGetBucketWithStorageMatcherApplied(ctx, func() (storage.ReadBucket, error) { return env.bucket, nil })()
+	if err != nil {
+		return nil, err
+	}
+	env.digest, err = getB5DigestForBucketAndDepModuleKeys(ctx, filtered, nil)
+	if err != nil {
+		return nil, err
+	}
+	for _, name := range []string{c10aNameX, c10aNameY} {
+		fullName, err := bufparse.ParseFullName(name)
+		if err != nil {
+			return nil, err
+		}
+		env.names[name] = fullName
+	}
+	base := time.Date(2024, 1, 1, 0, 0, 0, 0, time.UTC)
+	env.commitProvider = &c10CommitProvider{createTimes: map[uuid.UUID]time.Time{}}
+	for i, id := range c10aCommitIDs {
+		env.commitProvider.createTimes[id] = base.Add(time.Duration(c10aCommitAge[i]) * time.Hour)
+	}
+	return env, nil
+}
+
+func c10aModuleSignature(ctx context.Context, module Module) string {
+	s := map[bool]string{true: "local", false: "remote"}[module.IsLocal()]
+	s += map[bool]string{true: ",target", false: ",non-target"}[module.IsTarget()]
+	if module.BucketID() != "" {
+		s += "," + module.BucketID()
+	}
+	if module.CommitID() != uuid.Nil {
+		for i, id := range c10aCommitIDs {
+			if id == module.CommitID() {
+				s += fmt.Sprintf(",commit%d", i+1)
+			}
+		}
+	}
+	return s + ",files" + c10aListing(ctx, module, module.OpaqueID())
+}
+
+func c10aWantSignature(a c10aAdd, pos int) string {
+	s := map[bool]string{true: "local", false: "remote"}[a.local]
+	s += map[bool]string{true: ",target", false: ",non-target"}[a.target]
+	if a.local {
+		s += fmt.Sprintf(",bucket-%d", pos)
+	} else {
+		s += fmt.Sprintf(",commit%d", a.commit+1)
+	}
+	return s + ",files" + c10aWantListing(a.target, a.tg, false, nil)
+}
+
+const (
+	c10aTagIDs      = "inv-step every-opaque-id-kept visited-ids-kept one-per-opaque-id distinct-ids sorted-by-opaque-id members local-over-pinned opaque-ids-unique modules-as-given one-module-per-kept-record kept-records-were-added"
+	c10aTagRecord   = "records-module records-key records-paths record-as-given not-remote not-local module-flags"
+	c10aTagFlags    = "remote-module-from-key remote-from-key remote-modules-from-their-keys flags-as-given records-module record-as-given target-kept module-flags"
+	c10aTagIdentity = "local-over-pinned local-as-is local-is-returned-as-is one-module-per-kept-record kept-records-were-added inv-step local-kept-unless-remote-target target-kept identity-as-given"
+	c10aTagRetarget = "copy-with-flag same-modules-retargeted identity-kept inv-step"
+)
+
+func (r *c10Run) c10aRunSequence(ctx context.Context, env *c10aEnv, seq []c10aAdd, retarget bool) {
+	r.checked++
+	what := c10aDescribeSeq(seq)
+	dataProvider := &c10aDataProvider{bucket: env.bucket}
+	builder, ok := NewModuleSetBuilder(ctx, c10Logger, dataProvider, env.commitProvider).(*moduleSetBuilder)
+	if !ok || builder == nil || len(builder.addedModules) != 0 || len(builder.errs) != 0 {
+		r.fail("fresh empty providers-as-given", "NewModuleSetBuilder does not return an empty *moduleSetBuilder")
+		return
+	}
+	anyAddError := false
+	var valid []int
+	for pos, a := range seq {
+		beforeAdded, beforeErrs := len(builder.addedModules), len(builder.errs)
+		var returned ModuleSetBuilder
+		var key ModuleKey
+		if a.local {
+			var options []LocalModuleOption
+			if a.name != "" {
+				options = append(options, LocalModuleWithFullName(env.names[a.name]))
+			}
+			if len(a.tg.tp)+len(a.tg.ex) > 0 {
+				options = append(options, LocalModuleWithTargetPaths(a.tg.tp, a.tg.ex))
+			}
+			if a.tg.protoTarget != "" {
+				options = append(options, LocalModuleWithProtoFileTargetPath(a.tg.protoTarget, a.tg.includePkg))
+			}
+			returned = builder.AddLocalModule(env.bucket, fmt.Sprintf("bucket-%d", pos), a.target, options...)
+		} else {
+			var err error
+			key, err = NewModuleKey(env.names[a.name], c10aCommitIDs[a.commit], func() (Digest, error) { return env.digest, nil })
+			if err != nil {
+				fmt.Printf("VERIF-REPLAY generator problem: %v\n", err)
+				return
+			}
+			var options []RemoteModuleOption
+			if len(a.tg.tp)+len(a.tg.ex) > 0 {
+				options = append(options, RemoteModuleWithTargetPaths(a.tg.tp, a.tg.ex))
+			}
+			returned = builder.AddRemoteModule(key, a.target, options...)
+		}
+		if returned != ModuleSetBuilder(builder) {
+			r.failAt("same-builder", what, ": call #%d does not return the same builder", pos+1)
+		}
+		wantError := !a.target && !a.tg.empty()
+		gotError := len(builder.errs) == beforeErrs+1 && len(builder.addedModules) == beforeAdded
+		gotRecord := len(builder.errs) == beforeErrs && len(builder.addedModules) == beforeAdded+1
+		switch {
+		case wantError && !gotError:
+			r.failAt("non-target-has-no-paths non-target-has-no-targeting one-record-or-one-error", what, ": call #%d %s records %d module(s) and %d error(s); want one error and no module (paths are only valid for a target module)", pos+1, a.describe(), len(builder.addedModules)-beforeAdded, len(builder.errs)-beforeErrs)
+		case !wantError && !gotRecord:
+			r.failAt("one-record-or-one-error target-never-refused no-options-no-filters error-recorded", what, ": call #%d %s records %d module(s) and %d error(s); want one module and no error", pos+1, a.describe(), len(builder.addedModules)-beforeAdded, len(builder.errs)-beforeErrs)
+		}
+		if wantError {
+			anyAddError = true
+		} else {
+			valid = append(valid, pos)
+		}
+		if gotRecord {
+			record := builder.addedModules[len(builder.addedModules)-1]
+			bad := record == nil || record.IsTarget() != a.target || record.IsLocal() != a.local || record.OpaqueID() != a.id(pos)
+			if !bad && a.local {
+				bad = record.localModule == nil || record.remoteModuleKey != nil || record.localModule.IsTarget() != a.target || !record.localModule.IsLocal() || record.localModule.BucketID() != fmt.Sprintf("bucket-%d", pos)
+			}
+			if !bad && !a.local {
+				bad = record.localModule != nil || record.remoteModuleKey != key || fmt.Sprint(record.remoteTargetPaths) != fmt.Sprint(a.tg.tp) || fmt.Sprint(record.remoteTargetExcludePaths) != fmt.Sprint(a.tg.ex)
+			}
+			if bad {
+				got := "<nil>"
+				if record != nil {
+					got = fmt.Sprintf("{IsTarget=%v IsLocal=%v remoteTargetPaths=%v remoteTargetExcludePaths=%v}", record.IsTarget(), record.IsLocal(), record.remoteTargetPaths, record.remoteTargetExcludePaths)
+				}
+				r.failAt(c10aTagRecord, what, ": call #%d %s records the added module %s; want it as given", pos+1, a.describe(), got)
+			}
+		}
+	}
+	// the expectation: OpaqueID -> acceptable positions
+	groups := map[string][]int{}
+	anyTarget := false
+	for _, pos := range valid {
+		groups[seq[pos].id(pos)] = append(groups[seq[pos].id(pos)], pos)
+		anyTarget = anyTarget || seq[pos].target
+	}
+	var wantIDs []string
+	for id := range groups {
+		wantIDs = append(wantIDs, id)
+	}
+	sort.Strings(wantIDs)
+	wantFor := func(id string) string {
+		var out []string
+		for _, pos := range c10aChoose(seq, groups[id]) {
+			out = append(out, fmt.Sprintf("call #%d = %s", pos+1, c10aWantSignature(seq[pos], pos)))
+		}
+		return strings.Join(out, " or ")
+	}
+	// the de-duplication, directly on what the builder recorded
+	if len(builder.addedModules) > 0 && len(builder.addedModules) == len(valid) {
+		records := append([]*addedModule{}, builder.addedModules...)
+		unique, err := getUniqueSortedAddedModulesByOpaqueID(ctx, env.commitProvider, records)
+		var gotIDs []string
+		for _, u := range unique {
+			gotIDs = append(gotIDs, u.OpaqueID())
+		}
+		if err != nil || fmt.Sprint(gotIDs) != fmt.Sprint(wantIDs) {
+			r.failAt(c10aTagIDs, what, ": getUniqueSortedAddedModulesByOpaqueID(the %d recorded modules) = %v, err=%v; want one per OpaqueID, sorted: %v", len(records), gotIDs, err, wantIDs)
+		} else {
+			for i, u := range unique {
+				chosen := -1
+				for k, rec := range records {
+					if rec == u {
+						chosen = valid[k]
+					}
+				}
+				acceptable := c10aChoose(seq, groups[wantIDs[i]])
+				okChoice := false
+				for _, p := range acceptable {
+					okChoice = okChoice || p == chosen
+				}
+				if !okChoice {
+					r.failAt("members target-kept local-over-pinned local-kept-unless-remote-target inv-step", what, ": getUniqueSortedAddedModulesByOpaqueID keeps for %s the module of call #%d; documented choice: %s", wantIDs[i], chosen+1, wantFor(wantIDs[i]))
+				}
+			}
+		}
+	}
+	mset, err := builder.Build()
+	switch {
+	case anyAddError:
+		if err == nil {
+			r.failAt("add-errors-reported non-target-has-no-paths non-target-has-no-targeting", what, ": Build() succeeds; want the error of the Add* call with paths for a non-target module")
+		}
+	case !anyTarget:
+		if err == nil {
+			r.failAt("no-target-rejected", what, ": Build() succeeds; want an error (no module is a target)")
+		}
+	case err != nil || mset == nil:
+		r.failAt("records-module record-as-given "+c10aTagIDs, what, ": Build() fails: %v; want the modules %v", err, wantIDs)
+	default:
+		modules := mset.Modules()
+		var gotIDs []string
+		for _, m := range modules {
+			gotIDs = append(gotIDs, m.OpaqueID())
+		}
+		if fmt.Sprint(gotIDs) != fmt.Sprint(wantIDs) {
+			r.failAt(c10aTagIDs, what, ": Build() gives the modules %v; want one per OpaqueID, sorted: %v", gotIDs, wantIDs)
+		} else {
+			chosenCommits := map[uuid.UUID]bool{}
+			var wantTargets, wantLocals []string
+			for i, m := range modules {
+				got := c10aModuleSignature(ctx, m)
+				matched := -1
+				acceptable := c10aChoose(seq, groups[wantIDs[i]])
+				for _, pos := range acceptable {
+					if got == c10aWantSignature(seq[pos], pos) {
+						matched = pos
+						break
+					}
+				}
+				if !m.IsLocal() {
+					chosenCommits[m.CommitID()] = true
+				}
+				if mset.GetModuleForOpaqueID(wantIDs[i]) != m || m.ModuleSet() != mset {
+					r.failAt("opaque-id-index-exact opaque-id-index-values", what, ": GetModuleForOpaqueID(%q) / ModuleSet() of the built module are not the built module / set", wantIDs[i])
+				}
+				first := seq[acceptable[0]]
+				if first.target {
+					wantTargets = append(wantTargets, wantIDs[i])
+				}
+				if first.local {
+					wantLocals = append(wantLocals, wantIDs[i])
+				}
+				if matched >= 0 {
+					continue
+				}
+				tag := c10aTagDecision
+				switch {
+				case m.IsLocal() != first.local || (first.local && m.BucketID() != fmt.Sprintf("bucket-%d", acceptable[0])) || (!first.local && m.CommitID() != c10aCommitIDs[first.commit]):
+					tag = c10aTagIdentity
+				case m.IsTarget() != first.target:
+					tag = c10aTagFlags
+				case !first.target:
+					tag = c10aTagNonTargetModule
+				}
+				r.failAt(tag, what, ": Build() gives for %s the module {%s}; want %s", wantIDs[i], got, wantFor(wantIDs[i]))
+			}
+			for _, requested := range dataProvider.requested {
+				if !chosenCommits[requested] {
+					r.failAt("local-over-pinned kept-records-were-added", what, ": the ModuleDataProvider is asked for commit %v, which is not a module of the set", requested)
+				}
+			}
+			if got := ModuleSetTargetOpaqueIDs(mset); fmt.Sprint(got) != fmt.Sprint(wantTargets) {
+				r.failAt("only-targets all-targets "+c10aTagFlags, what, ": ModuleSetTargetOpaqueIDs = %v; want %v", got, wantTargets)
+			}
+			if got := ModuleSetOpaqueIDs(mset); fmt.Sprint(got) != fmt.Sprint(wantIDs) {
+				r.failAt("modulesOpaqueIDs", what, ": ModuleSetOpaqueIDs = %v; want %v", got, wantIDs)
+			}
+			if got := modulesOpaqueIDs(ModuleSetLocalModules(mset)); fmt.Sprint(got) != fmt.Sprint(wantLocals) {
+				r.failAt("only-local all-local", what, ": ModuleSetLocalModules = %v; want %v", got, wantLocals)
+			}
+			if got, want := len(ModuleSetRemoteModules(mset)), len(wantIDs)-len(wantLocals); got != want {
+				r.failAt("only-remote all-remote", what, ": ModuleSetRemoteModules has %d modules; want %d", got, want)
+			}
+			if got, want := len(ModuleSetNonTargetModules(mset)), len(wantIDs)-len(wantTargets); got != want {
+				r.failAt("only-non-targets all-non-targets", what, ": ModuleSetNonTargetModules has %d modules; want %d", got, want)
+			}
+			if retarget {
+				r.c10aRetarget(ctx, what, mset, wantIDs, wantTargets)
+			}
+		}
+	}
+	// a builder is used once
+	mset2, err2 := builder.Build()
+	if err2 == nil || mset2 != nil {
+		r.failAt("second-use-rejected latched", what, "; Build(); Build(): the second Build() returns a module set (err=%v); want an error (Build may be called once)", err2)
+	}
+	for _, local := range []bool{true, false} {
+		beforeAdded, beforeErrs := len(builder.addedModules), len(builder.errs)
+		call := "AddLocalModule"
+		if local {
+			builder.AddLocalModule(env.bucket, "bucket-late", true)
+		} else {
+			call = "AddRemoteModule"
+			key, _ := NewModuleKey(env.names[c10aNameY], c10aCommitIDs[2], func() (Digest, error) { return env.digest, nil })
+			builder.AddRemoteModule(key, true)
+		}
+		if len(builder.addedModules) != beforeAdded || len(builder.errs) != beforeErrs+1 || !errors.Is(builder.errs[len(builder.errs)-1], errBuildAlreadyCalled) {
+			r.failAt("after-build-rejected", what, "; Build(); %s(...): records %d module(s) and %d error(s); want no module and the already-built error", call, len(builder.addedModules)-beforeAdded, len(builder.errs)-beforeErrs)
+		}
+	}
+}
+
+func (r *c10Run) c10aRetarget(ctx context.Context, what string, mset ModuleSet, ids []string, targets []string) {
+	if _, err := mset.WithTargetOpaqueIDs(); err == nil {
+		r.failAt("empty-rejected", what, "; WithTargetOpaqueIDs(): no error; want one (at least one module must be targeted)")
+	}
+	before := mset.Modules()
+	for mask := 1; mask < 1<<len(ids); mask++ {
+		r.checked++
+		chosen := c10aSubset(ids, mask)
+		mset2, err := mset.WithTargetOpaqueIDs(chosen...)
+		if err != nil || mset2 == nil {
+			r.failAt(c10aTagRetarget, what, "; WithTargetOpaqueIDs(%v): error %v", chosen, err)
+			continue
+		}
+		var got []string
+		var gotTargets []string
+		sameIdentity := true
+		modules := mset2.Modules()
+		for i, m := range modules {
+			got = append(got, m.OpaqueID())
+			if m.IsTarget() {
+				gotTargets = append(gotTargets, m.OpaqueID())
+			}
+			if i < len(before) && (m.IsLocal() != before[i].IsLocal() || m.BucketID() != before[i].BucketID() || m.CommitID() != before[i].CommitID() || m == before[i]) {
+				sameIdentity = false
+			}
+			if m.ModuleSet() != mset2 {
+				sameIdentity = false
+			}
+		}
+		if fmt.Sprint(got) != fmt.Sprint(ids) || fmt.Sprint(gotTargets) != fmt.Sprint(chosen) {
+			r.failAt(c10aTagRetarget, what, " (targets %v); WithTargetOpaqueIDs(%v) gives the modules %v with the targets %v; want the modules %v with exactly the targets %v", targets, chosen, got, gotTargets, ids, chosen)
+		} else if !sameIdentity {
+			r.failAt("identity-kept fresh", what, "; WithTargetOpaqueIDs(%v): the modules are not fresh copies with the same IsLocal / BucketID / CommitID belonging to the new set", chosen)
+		}
+		if now := ModuleSetTargetOpaqueIDs(mset); fmt.Sprint(now) != fmt.Sprint(targets) {
+			r.failAt("original-untouched", what, "; WithTargetOpaqueIDs(%v): the targets of the original set are now %v; want %v", chosen, now, targets)
+		}
+	}
+}
+
+func (r *c10Run) familyBuilder(ctx context.Context) {
+	env, err := c10aNewEnv(ctx)
+	if err != nil {
+		fmt.Printf("VERIF-REPLAY generator problem: %v\n", err)
+		return
+	}
+	kinds := c10aKinds()
+	for _, a := range kinds {
+		r.c10aRunSequence(ctx, env, []c10aAdd{a}, true)
+	}
+	for _, a := range kinds {
+		for _, b := range kinds {
+			r.c10aRunSequence(ctx, env, []c10aAdd{a, b}, true)
+		}
+	}
+	for i, a := range kinds {
+		for j, b := range kinds {
+			for k, c := range kinds {
+				r.c10aRunSequence(ctx, env, []c10aAdd{a, b, c}, (i+j+k)%4 == 0)
+			}
+		}
+	}
+	// an empty builder gives an empty set
+	r.checked++
+	mset, err := NewModuleSetBuilder(ctx, c10Logger, NopModuleDataProvider, NopCommitProvider).Build()
+	if err != nil || mset == nil || len(mset.Modules()) != 0 {
+		r.fail("modules-as-given", "builder without Add* calls: Build() = %v, err=%v; want an empty module set", mset, err)
+	}
+	// the records, directly
+	for _, target := range []bool{true, false} {
+		r.checked++
+		single, err := (&c10Workspace{modules: []c10Module{{id: "bucket-0", files: []c10File{{path: "x/x.proto"}}}}}).build(ctx)
+		if err != nil {
+			continue
+		}
+		module := single.Modules()[0]
+		record := newLocalAddedModule(module, target)
+		if record == nil || record.localModule != module || record.isTarget != target || record.remoteModuleKey != nil || len(record.remoteTargetPaths) != 0 || len(record.remoteTargetExcludePaths) != 0 {
+			r.fail("records-module not-remote fresh", "newLocalAddedModule(module bucket-0, isTarget=%v) = %+v; want the module and the flag as given", target, record)
+		} else if back, err := record.ToModule(ctx, NopModuleDataProvider, NopCommitProvider); err != nil || back != module {
+			r.fail("local-is-returned-as-is local-as-is", "newLocalAddedModule(module bucket-0, isTarget=%v).ToModule() = %v, err=%v; want the module itself", target, back, err)
+		}
+		key, _ := NewModuleKey(env.names[c10aNameX], c10aCommitIDs[0], func() (Digest, error) { return env.digest, nil })
+		tp, ex := []string{"a"}, []string{"a/b"}
+		remote := newRemoteAddedModule(key, tp, ex, target)
+		if remote == nil || remote.localModule != nil || remote.remoteModuleKey != key || remote.isTarget != target || fmt.Sprint(remote.remoteTargetPaths) != "[a]" || fmt.Sprint(remote.remoteTargetExcludePaths) != "[a/b]" {
+			r.fail("records-key records-paths not-local fresh", "newRemoteAddedModule(x@commit1, [a], [a/b], isTarget=%v) = %+v; want key, paths and flag as given", target, remote)
+			continue
+		}
+		module2, err := remote.ToModule(ctx, &c10aDataProvider{bucket: env.bucket}, env.commitProvider)
+		tg := c10aTargeting{tp: tp, ex: ex}
+		whatRemote := fmt.Sprintf("newRemoteAddedModule(x@commit1, %s, isTarget=%v).ToModule()", tg, target)
+		if err != nil || module2 == nil {
+			r.failAt("remote-module-from-key", whatRemote, ": error %v", err)
+			continue
+		}
+		if module2.IsTarget() != target || module2.IsLocal() || module2.OpaqueID() != c10aNameX || module2.CommitID() != c10aCommitIDs[0] || module2.BucketID() != "" {
+			r.failAt("remote-module-from-key remote-from-key flags-as-given", whatRemote, " = {IsTarget=%v IsLocal=%v OpaqueID=%s CommitID=%v BucketID=%q}; want a remote module x@commit1 with IsTarget=%v", module2.IsTarget(), module2.IsLocal(), module2.OpaqueID(), module2.CommitID(), module2.BucketID(), target)
+			continue
+		}
+		r.c10aCheckFiles(ctx, whatRemote, module2, target, tg, false)
+	}
+}
+
+// ---- newModuleSet on hand-built lists
+
+type c10aIdentity struct {
+	name, bucketID, description string
+}
+
+func (r *c10Run) familyModuleSet(ctx context.Context) {
+	env, err := c10aNewEnv(ctx)
+	if err != nil {
+		return
+	}
+	pool := []c10aIdentity{
+		{c10aNameX, "b0", "d0"},
+		{"", c10aNameX, "d1"}, // its OpaqueID (the bucket ID) is the name of the first
+		{c10aNameY, "b2", "d2"},
+		{"", "b0", "d3"},        // the bucket ID of the first
+		{c10aNameX, "b4", "d4"}, // the name of the first
+		{"", "b5", ""},
+		{"", "b6", "d2"}, // the description of the third
+	}
+	make1 := func(identity c10aIdentity) Module {
+		options := []LocalModuleOption{}
+		if identity.name != "" {
+			options = append(options, LocalModuleWithFullName(env.names[identity.name]))
+		}
+		if identity.description != "" {
+			options = append(options, LocalModuleWithDescription(identity.description))
+		}
+		mset, err := NewModuleSetBuilder(ctx, c10Logger, NopModuleDataProvider, NopCommitProvider).AddLocalModule(env.bucket, identity.bucketID, true, options...).Build()
+		if err != nil || len(mset.Modules()) != 1 {
+			panic(fmt.Sprintf("generator: %v", err))
+		}
+		return mset.Modules()[0]
+	}
+	var lists [][]int
+	for a := range pool {
+		lists = append(lists, []int{a})
+		for b := range pool {
+			if b == a {
+				continue
+			}
+			lists = append(lists, []int{a, b})
+			for c := range pool {
+				if c == a || c == b {
+					continue
+				}
+				lists = append(lists, []int{a, b, c})
+			}
+		}
+	}
+	for _, list := range lists {
+		r.checked++
+		var modules []Module
+		var parts []string
+		collisions := map[string]string{}
+		seen := map[string]bool{}
+		for _, i := range list {
+			identity := pool[i]
+			modules = append(modules, make1(identity))
+			opaqueID := identity.name
+			if opaqueID == "" {
+				opaqueID = identity.bucketID
+			}
+			description := identity.description
+			if description == "" {
+				description = opaqueID
+			}
+			parts = append(parts, fmt.Sprintf("{name=%q bucketID=%q description=%q -> OpaqueID %s}", identity.name, identity.bucketID, identity.description, opaqueID))
+			keys := map[string]string{"OpaqueID": opaqueID, "BucketID": identity.bucketID, "Description": description}
+			if identity.name != "" {
+				keys["FullName"] = identity.name
+			}
+			for kind, value := range keys {
+				if seen[kind+"="+value] {
+					collisions[kind] = value
+				}
+				seen[kind+"="+value] = true
+			}
+		}
+		what := "newModuleSet([" + strings.Join(parts, " ") + "])"
+		set, err := newModuleSet(modules)
+		if len(collisions) > 0 {
+			if err == nil || set != nil {
+				tag := "bucket-ids-unique failure-gives-nil"
+				if _, ok := collisions["OpaqueID"]; ok {
+					tag = "inv-step duplicate-opaque-id-rejected opaque-ids-unique failure-gives-nil"
+				}
+				r.failAt(tag, what, " succeeds; want an error: two of the modules share %v", collisions)
+			}
+			continue
+		}
+		if err != nil || set == nil {
+			r.failAt("fresh", what, ": error %v; the identities are distinct", err)
+			continue
+		}
+		got := set.Modules()
+		same := len(got) == len(modules)
+		for i := range modules {
+			same = same && got[i] == modules[i] && set.GetModuleForOpaqueID(modules[i].OpaqueID()) == modules[i] && set.GetModuleForBucketID(modules[i].BucketID()) == modules[i] && modules[i].ModuleSet() == ModuleSet(set)
+			if fullName := modules[i].FullName(); fullName != nil {
+				same = same && set.GetModuleForFullName(fullName) == modules[i]
+			}
+		}
+		if !same || set.GetModuleForBucketID("nobody") != nil || set.GetModuleForFullName(env.names[c10aNameY]) != set.GetModuleForOpaqueID(c10aNameY) {
+			r.failAt("modules-as-given opaque-id-index-exact opaque-id-index-values bucket-id-index-exact bucket-id-index-values inv-step", what, ": Modules() / GetModuleForOpaqueID / GetModuleForBucketID / GetModuleForFullName / ModuleSet() do not give back the modules as given")
+		}
+	}
+}
+
 func TestVerifReplayC10(t *testing.T) {
 	fn := os.Getenv("VERIF_REPLAY_FUNC")
 	obligation := os.Getenv("VERIF_REPLAY_OBLIGATION")
@@ -897,6 +1891,23 @@ func TestVerifReplayC10(t *testing.T) {
 	case "trackFileInfo", "trackModule", "validate", "newProtoFileTracker":
 		r.familyTracker(ctx)
 		r.familyFaults(ctx)
+	case "AddLocalModule", "AddRemoteModule", "Build", "addError", "newModuleSetBuilder", "NewModuleSetBuilder", "newLocalModuleOptions", "newRemoteModuleOptions",
+		"LocalModuleWithFullName", "LocalModuleWithFullNameAndCommitID", "LocalModuleWithDescription", "RemoteModuleWithTargetPaths",
+		"ToModule", "newLocalAddedModule", "newRemoteAddedModule", "getUniqueSortedAddedModulesByOpaqueID",
+		"ModuleSetTargetModules", "ModuleSetNonTargetModules", "ModuleSetLocalModules", "ModuleSetRemoteModules", "ModuleSetOpaqueIDs", "ModuleSetTargetOpaqueIDs", "modulesOpaqueIDs":
+		r.familyBuilder(ctx)
+	case "newModuleSet", "GetModuleForBucketID", "GetModuleForFullName", "setModuleSet":
+		r.familyModuleSet(ctx)
+		r.familyBuilder(ctx)
+	case "withIsTarget", "WithTargetOpaqueIDs", "withModule":
+		r.familyTargetFiles(ctx)
+		r.familyBuilder(ctx)
+	case "newModule", "newModuleReadBucketForModule", "LocalModuleWithTargetPaths", "LocalModuleWithProtoFileTargetPath":
+		r.familyTargetFiles(ctx)
+		r.familyBuilder(ctx)
+	case "getFileInfoUncached", "WalkFileInfos", "StatFileInfo", "newFileInfo", "IsTargetFile", "FileType", "Module", "FileTypeForPath",
+		"newFilteredModuleReadBucket", "newTargetedModuleReadBucket":
+		r.familyTargetFiles(ctx)
 	default:
 		fmt.Printf("VERIF-REPLAY no harness for %q\n", fn)
 		return
@@ -908,10 +1919,20 @@ func TestVerifReplayC10(t *testing.T) {
 	if strings.Contains(obligation, "#inv-step") || strings.Contains(obligation, "#inv-entry") {
 		label = "inv-step"
 	}
+	// the clause label proper: "0.visited-ids-kept" (loop / closure number first) -> "visited-ids-kept"
+	specific := ""
+	if i := strings.LastIndex(obligation, "["); i >= 0 {
+		specific = strings.TrimLeft(strings.TrimSuffix(obligation[i+1:], "]"), "0123456789.")
+	}
 	sort.SliceStable(r.failures, func(a, b int) bool {
 		ma := label != "" && strings.Contains(" "+r.failures[a].tag+" ", " "+label+" ")
 		mb := label != "" && strings.Contains(" "+r.failures[b].tag+" ", " "+label+" ")
-		return ma && !mb
+		if ma != mb {
+			return ma
+		}
+		sa := specific != "" && strings.Contains(" "+r.failures[a].tag+" ", " "+specific+" ")
+		sb := specific != "" && strings.Contains(" "+r.failures[b].tag+" ", " "+specific+" ")
+		return sa && !sb
 	})
 	printed := map[string]bool{}
 	count := 0
@@ -919,9 +1940,12 @@ func TestVerifReplayC10(t *testing.T) {
 		if count >= 5 {
 			break
 		}
-		key := f.text
-		if i := strings.Index(key, "}: "); i >= 0 {
-			key = key[:i]
+		key := f.key
+		if key == "" {
+			key = f.text
+			if i := strings.Index(key, "}: "); i >= 0 {
+				key = key[:i]
+			}
 		}
 		if printed[key] {
 			continue
